@@ -235,6 +235,9 @@ PROPS = {
                         "'for whatever RNG' holds up to the transcript-rejection event (probability about 2^-250 per challenge)"],
     },
     "C19": {
+        "standin_replay": "bounded, not proof: eight proofs serialised by the unchanged tree (replay/vectors.txt: bit lengths 1..64, aggregation 1..8, extension degrees 1..6, "
+                          "with and without seed and promises, capacity above the aggregation factor) must still decode, re-encode identically, be accepted in all three modes "
+                          "and yield the recorded masks under statements rebuilt from the same seeds",
         "units": ["transcripts", "nonce", "codec", "gens_chain"],
         "design_ref": "DESIGN.md section 7, C19",
         "technique": "contract-based deductive verification (Verus): the released wire format written once as specification functions (transcript layout, nonce KDF byte layout, proof byte layout); the real code proved to conform",
